@@ -231,6 +231,47 @@ def run(rep, tier, rng):
         cases.append(Case("g%d" % k, "run", "%s %s" % (cc.rand_env(r6), pg.prog_pdl(p)), None,
                           {"features": cc.prog_features(p), "expect": 1 if wrong else 0, "probe": "guard-after-write"}))
         k += 1
+    # the disconnect templates (and a sample of the guards) once more BEHIND A SELECTOR and after SCRATCH WORK: a live frame of
+    # 1 + kw bits puts every later frame off the byte boundary, and `comp <512 ones> unit` leaves released cells full of
+    # ones where the frames of the template are allocated next (a byte-wise write that ORs into stale cells shows)
+    r7 = rng.fork("behind")
+    hid5 = "%064x" % 0x5eed
+    wrapped = [(p_, e_, "disc-width") for p_, e_, _d in cc.disc_templates(rng.fork("disctmpl2"), 14 if quick else 200)]
+    for j, (nodes, wrong) in enumerate(core_cc.guard_after_write_programs(r7, True, True)):
+        if j % 6 == 0:
+            m_ = list(nodes)
+            m_.append(("unit",))
+            m_.append(("comp", len(m_) - 2, len(m_) - 1))
+            wrapped.append((m_, 1 if wrong else 0, "guard-after-write"))
+    for j, (nodes, expect, probe) in enumerate(wrapped):
+        for kw in ((0, 6) if quick else (0, 2, 3, 6, 7)):
+            for scratch in (False, True):
+                m_ = list(nodes)
+                body = len(m_) - 1
+                if scratch:
+                    m_.append(("word", 9, [1] * 512))
+                    m_.append(("unit",))
+                    m_.append(("comp", len(m_) - 2, len(m_) - 1))
+                    m_.append(("comp", len(m_) - 1, body))
+                    body = len(m_) - 1
+                m_.append(("drop", body))
+                m_.append(("drop", len(m_) - 1))
+                child = len(m_) - 1                       # 1 * (W * 1) -> 1
+                m_.append(("hid", hid5))
+                m_.append(("case", len(m_) - 1, child))   # assertr
+                br = len(m_) - 1
+                m_.append(("unit",))
+                m_.append(("injr", len(m_) - 1))
+                ir = len(m_) - 1
+                wk = core_cc.words_of_width(m_, kw, r7)
+                m_.append(("unit",))
+                m_.append(("pair", wk, len(m_) - 1))
+                m_.append(("pair", ir, len(m_) - 1))
+                m_.append(("comp", len(m_) - 1, br))
+                p = pg.compact_prog(m_)
+                cases.append(Case("h%d" % k, "run", "%s %s" % (cc.rand_env(r7), pg.prog_pdl(p)), None,
+                                  {"features": cc.prog_features(p), "expect": expect, "probe": probe + "-behind-selector"}))
+                k += 1
     lap("generation_s")
     # three-way population: programs over the Elements namesakes of the Core jets specified in Jets/JetSpec.v (plus words,
     # witnesses, assertions, disconnect); the verdict of Core/Sem.v eval is computed in Coq for every one of them
